@@ -307,7 +307,7 @@ func new(input OmegaInput) (output OmegaOutput) {
 	newBalance := s.ServiceInfo.Balance - at
 	// otherwise if s_b < (x_s)_t, transfer a_t tokens to new service, so need to check balance(b) > minBalance()
 	minBalance := service_account.CalcThresholdBalance(s.ServiceInfo.Items, s.ServiceInfo.Bytes, s.ServiceInfo.DepositOffset)
-	if newBalance < minBalance {
+	if s.ServiceInfo.Balance < at || newBalance < minBalance {
 		input.VM.Registers[7] = CASH
 		return OmegaOutput{
 			ExitReason: ExitContinue,
